@@ -43,9 +43,9 @@ USEQ_ALIAS = False  # unit["useqalias"]: ... initial values of variables / struc
 def enumq(ty, v, decl=False):
     """the spelling of enumeration value v of type ty where it is USED (LEVEL2 is an alias of LEVEL);
     decl: the default of a type declaration (never written with the alias)"""
-    if USEQ_ALIAS and not decl and ty in ("LEVEL", "LEVEL2"):
+    if USEQ_ALIAS and not decl and ty in ("LEVEL", "LEVEL2", "LEVEL3"):
         return "LEVEL2#" + v
-    return ("LEVEL" if ty in ("LEVEL", "LEVEL2") else ty) + "#" + v if USEQ else v
+    return ("LEVEL" if ty in ("LEVEL", "LEVEL2", "LEVEL3") else ty) + "#" + v if USEQ else v
 
 
 def type_decl(o, t):
@@ -127,6 +127,10 @@ def stmt_core(o, pou, s, si):
             o.w(src[1], ("use", pn, si, "src", src[1])).w(" + ").w(src[2], ("use", pn, si, "src", src[2]))
         elif src[0] == "fcall":
             o.w(src[1], ("fcall", pn, si)).w("(").w(src[2], ("use", pn, si, "src", src[2])).w(")")
+        elif src[0] == "nested":
+            o.w("((").w(src[1], ("use", pn, si, "src", src[1])).w(" + (").w(src[2], ("use", pn, si, "src", src[2])).w(" * 2)) - 1)")
+        elif src[0] == "neg":
+            o.w("- ").w(src[1], ("use", pn, si, "src", src[1]))
         elif src[0] == "field":
             o.w(src[1], ("use", pn, si, "src", src[1])).w(".").w(src[2])
         elif src[0] == "index":
